@@ -76,6 +76,8 @@ ImplCmd(b) == LET f == Find(b, 1) IN
 ImplElf(b) == LET f == Find(b, 9) IN
   IF f.st = "absent" THEN [res |-> "ok", secs |-> <<>>]
   ELSE IF f.st # "found" THEN [res |-> f.st, secs |-> <<>>]
+  ELSE IF Bug = "EagerStrtab" /\ Off(b, f.idx) + 20 + 64 * b[f.idx].shndx + 24 > Total(b)
+       THEN [res |-> "fault", secs |-> <<>>]          \* string-table section header read before the (empty) loop
   ELSE LET tg == b[f.idx]
            keep == SelectSeq(tg.secs, LAMBDA s : Bug = "ReportEmpty" \/ s.sz # Z4)
        IN [res |-> "ok", secs |-> [j \in 1..Len(keep) |-> [n |-> CStr(tg.strtab, keep[j].ni + 1), fl |-> keep[j].fl,
